@@ -32,7 +32,31 @@ def conc(vm, x):
 
 
 def proj(x):
-    return x if type(x) is int else 777
+    """inverse of conc: a raw coercible item found in a set shows as its own code (11..13), the invalid item as 99"""
+    if type(x) is int:
+        return x
+    if type(x) is str:
+        return {"1": 11, "2": 12, "3": 13, "bad": 99}.get(x, 777)
+    return 777
+
+
+def _raising_iter(items):
+    for x in items:
+        yield x
+    raise ZeroDivisionError("iterator")
+
+
+def operand(A, vm, how):
+    """the Python operand standing for the argument set A (TraitSet.tla: NotIterable -1, Unhashable -2, RaisingIter -3);
+    how: the constructor used for a well-formed operand (iter / list / set / frozenset)"""
+    items = [conc(vm, x) for x in A if x >= 0]
+    if -1 in A:
+        return 5
+    if -3 in A:
+        return _raising_iter(items + ([[1]] if -2 in A else []))
+    if -2 in A:
+        return items + [[1]]
+    return how(items)
 
 
 def proj_set(s):
@@ -42,8 +66,7 @@ def proj_set(s):
 
 
 def perform(obj, op, a, args, vm):
-    cargs = [[conc(vm, x) for x in A] for A in args]
-    c0 = conc(vm, a[0])
+    c0 = [1] if a[0] == -2 else conc(vm, a[0])
     if op == "add":
         obj.add(c0)
     elif op == "discard":
@@ -55,15 +78,15 @@ def perform(obj, op, a, args, vm):
     elif op == "clear":
         obj.clear()
     elif op == "update":
-        obj.update(*[iter(A) for A in cargs])
+        obj.update(*[operand(A, vm, iter) for A in args])
     elif op == "difference_update":
-        obj.difference_update(*[list(A) for A in cargs])
+        obj.difference_update(*[operand(A, vm, list) for A in args])
     elif op == "intersection_update":
-        obj.intersection_update(*[list(A) for A in cargs])
+        obj.intersection_update(*[operand(A, vm, list) for A in args])
     elif op == "symmetric_difference_update":
-        obj.symmetric_difference_update(list(cargs[0]) if a[0] == 1 else set(cargs[0]))
+        obj.symmetric_difference_update(operand(args[0], vm, list if a[0] == 1 else set))
     elif op in ("ior", "iand", "isub", "ixor"):
-        arg = frozenset(cargs[0]) if a[0] == 1 else (list(cargs[0]) if a[0] == 2 else set(cargs[0]))
+        arg = operand(args[0], vm, frozenset if a[0] == 1 else (list if a[0] == 2 else set))
         if op == "ior":
             obj |= arg
         elif op == "iand":
@@ -75,6 +98,21 @@ def perform(obj, op, a, args, vm):
     else:
         raise MachineryError("unknown op " + op)
     return None
+
+
+_owners = {}
+
+
+def _set_owner(vm):
+    """a HasTraits class with values = Set(item trait); the item trait validates like the TraitSet validator of vm"""
+    if vm not in _owners:
+        from traits.api import Any, HasTraits, Set, TraitType
+
+        class CoerceItem(TraitType):
+            def validate(self, object, name, value):
+                return _coerce_validator(value)
+        _owners[vm] = type("SetOwner_" + vm, (HasTraits,), {"values": Set(CoerceItem() if vm == "coerce" else Any())})
+    return _owners[vm]
 
 
 def execute(pre, op, a, args, vm):
@@ -93,6 +131,28 @@ def execute(pre, op, a, args, vm):
         if op == "construct":
             ts = TraitSet(iter([conc(vm, x) for x in args[0]]), item_validator=val, notifiers=[rec])
             post = proj_set(ts)
+        elif op == "copyadd" and a[0] >= 3:
+            # the TraitSetObject held by a Set trait: copied on its own, or kept after its owner is gone
+            owner = _set_owner(vm)(values=set(pre))
+            ts = owner.values
+            if a[0] == 3:
+                c = copy.copy(ts)
+            elif a[0] == 4:
+                c = copy.deepcopy(ts)
+            elif a[0] == 5:
+                c = pickle.loads(pickle.dumps(ts))
+            else:
+                c = ts
+                del owner
+                import gc
+                gc.collect()
+            post = proj_set(c)
+            if not isinstance(c, TraitSet) or set(c) != set(pre) or (c is ts and a[0] != 6):
+                exc = "CopyNotEqual"
+            else:
+                ts = c
+                ts.add(conc(vm, a[1]))
+                post = proj_set(ts)
         elif op == "copyadd":
             ts = TraitSet(set(pre), item_validator=val, notifiers=[rec])
             if a[0] == 0:
@@ -118,8 +178,9 @@ def execute(pre, op, a, args, vm):
         exc, post = type(e).__name__, (proj_set(ts) if ts is not None else [])
     # builtin set on validated arguments
     bs = set(pre)
+    bexc = ""
     try:
-        v = (lambda x: _coerce_validator(conc(vm, x))) if vm == "coerce" else (lambda x: x)
+        v = (lambda x: x if x < 0 else _coerce_validator(conc(vm, x))) if vm == "coerce" else (lambda x: x)
         if op == "construct":
             bs = set(v(x) for x in args[0])
         elif op == "copyadd":
@@ -127,15 +188,18 @@ def execute(pre, op, a, args, vm):
         elif op == "pop":
             bs.discard(ret)
         elif op in ("add",):
-            bs.add(v(a[0]))
+            bs.add([1] if a[0] == -2 else v(a[0]))
         elif op in ("update", "ior", "ixor", "symmetric_difference_update"):
             perform(bs, op, a, [[v(x) for x in A] for A in args], "id")
         else:
             perform(bs, op, a, args, vm)
-    except Exception:
+    except Exception as e:
+        from traits.trait_errors import TraitError as _TE
+        bexc = "" if isinstance(e, _TE) else type(e).__name__     # (validation of the arguments failed: no builtin twin)
         bs = set(pre)
     return {"op": op, "a": list(a), "args": [sorted(A) for A in args], "vm": vm, "pre": sorted(pre), "post": post,
-            "exc": exc, "ret": NONE if ret is None else proj(ret), "evs": events, "builtin": proj_set(bs)}
+            "exc": exc, "ret": NONE if ret is None else proj(ret), "evs": events, "builtin": proj_set(bs),
+            "bexc": bexc}
 
 
 def case_fn(st, rep):
@@ -164,16 +228,23 @@ def history_lines(seed, ntraces, steps):
             a = [0, 0]
             args = []
             pool = [1, 2, 3, 4, 11, 12, 13] + ([99] if rnd.random() < 0.12 else [])
-            rs = lambda: sorted(set(rnd.choice(pool) for _ in range(rnd.randint(0, 4))))
+            def rs(allow_bad=True):
+                A = sorted(set(rnd.choice(pool) for _ in range(rnd.randint(0, 4))))
+                if allow_bad and rnd.random() < 0.08:
+                    bad = rnd.choice([-1, -2, -3])
+                    A = [-1] if bad == -1 else [bad] + A
+                return A
             if op in ("add", "discard", "remove"):
-                a[0] = rnd.choice(pool if op == "add" else items)
+                a[0] = rnd.choice(pool if op == "add" else items) if rnd.random() > 0.04 else -2
             elif op in ("update", "difference_update", "intersection_update"):
                 args = [rs() for _ in range(rnd.randint(0, 3))]
             elif op in ("ior", "iand", "isub", "ixor", "symmetric_difference_update"):
-                args = [rs()]
+                args = [rs(op == "symmetric_difference_update")]
                 a[0] = rnd.choice([0, 0, 1, 2]) if op != "symmetric_difference_update" else rnd.randint(0, 1)
+                if args[0] and args[0][0] < 0:
+                    a[0] = 1
             elif op == "copyadd":
-                a = [rnd.randint(0, 2), rnd.choice([3, 11, 99, 1])]
+                a = [rnd.randint(0, 6), rnd.choice([3, 11, 99, 1])]
             r = execute(cur, op, a, args, vm)
             r["tid"] = t
             out.append(r)
@@ -187,6 +258,8 @@ def history_lines(seed, ntraces, steps):
 def sig_of(rec, cl):
     if cl == ["KF15"]:
         return "C07:KF15:symmetric-difference-raw-item-absent-validated-present"
+    if cl == ["KF24"]:
+        return "C07:KF24:TraitSetObject-pickled-alone-no-longer-validates"
     if rec["op"] == "copyadd" and rec["a"][0] == 1 and rec["exc"] == "AttributeError":
         return "C07:F2:deepcopy-AttributeError-validator"
     return "C07:judge:%s:%s" % (rec["op"], "+".join(cl))
